@@ -72,11 +72,14 @@ pub struct CaseSpec {
     pub remove_on_drop: bool,
     /// truncate is also issued while other arena values / owned handles are alive (C18 histories)
     pub shared_truncate: bool,
+    /// the file is marked remove-on-drop only at the end of the history, on whatever session is open then
+    /// (writable, copy-on-write or read-only after the reopens of the history) — C13 histories
+    pub late_remove: bool,
 }
 
 impl CaseSpec {
     pub fn to_json(&self) -> Value {
-        json!({"cfg": self.cfg.to_json(), "spurious_seed": self.spurious_seed, "finish_order": self.finish_order, "remove_on_drop": self.remove_on_drop, "shared_truncate": self.shared_truncate})
+        json!({"cfg": self.cfg.to_json(), "spurious_seed": self.spurious_seed, "finish_order": self.finish_order, "remove_on_drop": self.remove_on_drop, "shared_truncate": self.shared_truncate, "late_remove": self.late_remove})
     }
     pub fn from_json(v: &Value) -> Option<CaseSpec> {
         Some(CaseSpec {
@@ -85,6 +88,7 @@ impl CaseSpec {
             finish_order: v.get("finish_order")?.as_u64()?,
             remove_on_drop: v.get("remove_on_drop").and_then(|x| x.as_bool()).unwrap_or(false),
             shared_truncate: v.get("shared_truncate").and_then(|x| x.as_bool()).unwrap_or(false),
+            late_remove: v.get("late_remove").and_then(|x| x.as_bool()).unwrap_or(false),
         })
     }
 }
@@ -110,6 +114,7 @@ fn run_generic<A: Ar>(spec: &CaseSpec, tag: u64, mut source: impl FnMut(&Exec<A>
         e.remove_on_drop = true;
     }
     e.shared_truncate = spec.shared_truncate;
+    e.late_remove = spec.late_remove && path.is_some() && !spec.remove_on_drop;
     e.global_checks();
     loop {
         if e.dead {
@@ -144,6 +149,8 @@ pub fn run_generated(profile: &Profile, seed: u64, run: u64) -> (CaseSpec, CaseO
         // a quarter of the C18 histories: the others keep truncating unshared arenas only, so that the known
         // finding about shared ones does not end every long history
         shared_truncate: profile.prop == "C18" && crate::rng::mix(run) % 4 == 0,
+        // (a hash of the run index, not a draw: the histories of the other runs stay what they were)
+        late_remove: cfg.backend == Backend::File && profile.prop == "C13" && crate::rng::mix(run ^ 0x13) % 3 == 0,
     };
     let mut orng = Rng::derive(seed, run, 2);
     let mut count = 0u64;
